@@ -86,6 +86,7 @@ def set_source(code, filename=DEFAULT_STUDENT_FILENAME, sections=False,
     if not sections:
         report[TOOL_NAME]['sections'] = None
         report[TOOL_NAME]['section'] = None
+        report.submission.clear_line_offsets()
         verify(code, report=report)
     else:
         separate_into_sections(report=report)
